@@ -1,6 +1,8 @@
 import AptMirror.Props.C03
 import AptMirror.Props.C13
 import AptMirror.Lemmas.Mirror
+import AptMirror.Lemmas.Frame
+import AptMirror.Lemmas.Requests
 /-!
 # C07 — a crash at any point leaves a usable mirror; the next good run converges
 
@@ -194,6 +196,302 @@ theorem C07_index_torso_refetched (fs : FS) (p : Path) (k t : Nat) (announced : 
     premise (the file under the requested name has the served content) -/
 example : contentAt ((FS.empty.addFile [["by-hash"], ["h"]].flatten { size := 5, mtime := some 7, tag := 3 }).addFile ["Packages.xz"]
     { size := 4, mtime := some 1, tag := 2 }) ["by-hash", "h"] = some (5, 3) := by decide
+
+/-! ### ... lifted over the retry loop, the aliases and the variants of one index file -/
+
+/-- S5 for a whole run: whenever the file under a URL's name passes for unmodified with respect to an answer the server will
+    still give for that URL, it has that answer's content -/
+def S5 (root : Path) (s : DState) : Prop :=
+  ∀ src announced date body abort tag, Resp.ok announced date body abort tag ∈ s.orc src →
+    sizeTruthy announced = true → needUpdate s.fs (root ++ src) announced date = false →
+    contentAt s.fs (root ++ src) = some (body, tag)
+
+theorem dropRetries_sub (l : List Resp) : ∀ x ∈ (dropRetries l).2, x ∈ l := by
+  induction l with
+  | nil => intro x hx; simp [dropRetries] at hx
+  | cons a l ih =>
+    intro x hx
+    cases a with
+    | retry => simp only [dropRetries] at hx; exact List.mem_cons_of_mem _ (ih x hx)
+    | missing => simpa [dropRetries] using hx
+    | error => simpa [dropRetries] using hx
+    | ok a d b ab t => simpa [dropRetries] using hx
+
+/-- a request answers with `missing` or with one of the scripted answers, and only shortens the script -/
+theorem request_mem (s : DState) (u : Path) :
+    ((s.request u).1 = .missing ∨ (s.request u).1 ∈ s.orc u) ∧ ∀ q x, x ∈ (s.request u).2.orc q → x ∈ s.orc q := by
+  unfold DState.request
+  split
+  · rename_i k h
+    refine ⟨Or.inl rfl, fun q x hx => ?_⟩
+    simp only at hx
+    split at hx
+    · cases hx
+    · exact hx
+  · rename_i k r rs h
+    have hsub := dropRetries_sub (s.orc u)
+    rw [h] at hsub
+    refine ⟨Or.inr (hsub r List.mem_cons_self), fun q x hx => ?_⟩
+    simp only at hx
+    split at hx
+    · rename_i hq; subst hq; exact hsub x (List.mem_cons_of_mem _ hx)
+    · exact hx
+
+theorem rewrite_dataAt_other (fs : FS) (hwf : fs.WF) (p q : Path) (n t : Nat) (h : q ≠ p) :
+    (fs.rewrite p n t).dataAt q = fs.dataAt q := by
+  unfold FS.dataAt
+  rw [FS.rewrite_ino_other fs p q n t h]
+  cases hi : fs.ino q with
+  | none => rfl
+  | some i =>
+    simp only [Option.map_some]
+    rw [FS.rewrite_dat_old fs p n t i (Nat.ne_of_lt (hwf q i hi))]
+
+theorem needUpdate_congr (a b : FS) (p : Path) (h : a.dataAt p = b.dataAt p) (sz : Option Nat) (d : Option Int) :
+    needUpdate a p sz d = needUpdate b p sz d := by
+  unfold needUpdate; rw [h]
+
+theorem append_left_inj' (root a b : Path) (h : root ++ a = root ++ b) : a = b := List.append_cancel_left h
+
+/-- S5 survives anything that only shortens the scripts and rewrites one file from scratch (a torso is never "unmodified") -/
+theorem S5_step (root : Path) (s s' : DState) (hwf : s.fs.WF) (h5 : S5 root s) (src : Path)
+    (horc : ∀ q x, x ∈ s'.orc q → x ∈ s.orc q)
+    (hfs : s'.fs = s.fs ∨ ∃ n t, s'.fs = s.fs.rewrite (root ++ src) n t) : S5 root s' := by
+  intro src' a d b ab t hm htru hnu
+  rcases hfs with hfs | ⟨n, tg, hfs⟩
+  · rw [hfs] at hnu ⊢; exact h5 src' a d b ab t (horc _ _ hm) htru hnu
+  · rw [hfs] at hnu ⊢
+    by_cases hq : root ++ src' = root ++ src
+    · rw [hq, C07_index_torso_refetched] at hnu; cases hnu
+    · have hd := rewrite_dataAt_other s.fs hwf (root ++ src) (root ++ src') n tg hq
+      rw [needUpdate_congr _ _ _ hd] at hnu
+      unfold contentAt
+      rw [hd]
+      exact h5 src' a d b ab t (horc _ _ hm) htru hnu
+
+/-- what a pass through the loop body that does not accept leaves behind -/
+theorem attempt_nonaccept (root : Path) (f : DFile) (v : Variant) (src : Path) (s : DState) (err : Bool) (s' : DState)
+    (h : (∃ e, attempt root f v src s err = .again s' e) ∨ attempt root f v src s err = .stop s') :
+    s'.orc = (s.request src).2.orc ∧ (s'.fs = s.fs ∨ ∃ n t, s'.fs = s.fs.rewrite (root ++ src) n t) := by
+  unfold attempt at h
+  have hfs := request_fs s src
+  generalize s.request src = rs at hfs h ⊢
+  obtain ⟨r, s1⟩ := rs
+  simp only at hfs
+  rw [← hfs]
+  cases r with
+  | retry =>
+    simp only at h
+    rcases h with ⟨e, h⟩ | h
+    · cases h; exact ⟨rfl, Or.inl rfl⟩
+    · cases h
+  | missing =>
+    simp only at h
+    split at h
+    · rcases h with ⟨e, h⟩ | h
+      · cases h
+      · cases h; exact ⟨rfl, Or.inl rfl⟩
+    · rcases h with ⟨e, h⟩ | h
+      · cases h; exact ⟨rfl, Or.inl rfl⟩
+      · cases h
+  | error =>
+    simp only at h
+    split at h
+    · rcases h with ⟨e, h⟩ | h
+      · cases h
+      · cases h; exact ⟨rfl, Or.inl rfl⟩
+    · rcases h with ⟨e, h⟩ | h
+      · cases h; exact ⟨rfl, Or.inl rfl⟩
+      · cases h
+  | ok a d b ab t =>
+    simp only at h
+    split at h
+    · split at h
+      · rcases h with ⟨e, h⟩ | h
+        · cases h
+        · cases h; exact ⟨rfl, Or.inl rfl⟩
+      · rcases h with ⟨e, h⟩ | h
+        · cases h; exact ⟨rfl, Or.inl rfl⟩
+        · cases h
+    · split at h
+      · rcases h with ⟨e, h⟩ | h <;> cases h
+      · split at h
+        · rcases h with ⟨e, h⟩ | h
+          · cases h; exact ⟨rfl, Or.inr ⟨_, _, rfl⟩⟩
+          · cases h
+        · split at h
+          · rcases h with ⟨e, h⟩ | h
+            · cases h; exact ⟨rfl, Or.inr ⟨_, _, rfl⟩⟩
+            · cases h
+          · rcases h with ⟨e, h⟩ | h <;> cases h
+
+/-- what the loop for one (variant, URL) guarantees -/
+def LoopContent (root : Path) (v : Variant) (src : Path) (s : DState) : TryResult × DState × Bool → Prop
+  | (.accepted, s', _) => ∃ a d b ab t, Resp.ok a d b ab t ∈ s.orc src ∧ ∀ p ∈ v.allPaths, contentAt s'.fs (root ++ p) = some (b, t)
+  | (.exhausted, s', _) => s'.fs.WF ∧ S5 root s' ∧ ∀ q x, x ∈ s'.orc q → x ∈ s.orc q
+
+theorem tryLoop_content (root : Path) (f : DFile) (v : Variant) (src : Path) :
+    ∀ (n : Nat) (s : DState) (err : Bool), s.fs.WF → S5 root s → LoopContent root v src s (tryLoop root f v src n s err)
+  | 0, s, err, hwf, h5 => ⟨hwf, h5, fun _ _ hx => hx⟩
+  | n + 1, s, err, hwf, h5 => by
+    unfold tryLoop
+    have hreq := request_mem s src
+    split
+    · -- accepted by this pass
+      rename_i s' hacc
+      show ∃ a d b ab t, Resp.ok a d b ab t ∈ s.orc src ∧ ∀ p ∈ v.allPaths, contentAt s'.fs (root ++ p) = some (b, t)
+      -- the answer that was accepted
+      have hr : ∃ a d b ab t s1, s.request src = (.ok a d b ab t, s1) := by
+        unfold attempt at hacc
+        generalize s.request src = rs at hacc
+        obtain ⟨r, s1⟩ := rs
+        cases r with
+        | retry => simp only at hacc; cases hacc
+        | missing => simp only at hacc; split at hacc <;> cases hacc
+        | error => simp only at hacc; split at hacc <;> cases hacc
+        | ok a d b ab t => exact ⟨a, d, b, ab, t, s1, rfl⟩
+      obtain ⟨a, d, b, ab, t, s1, hr⟩ := hr
+      have hmem : Resp.ok a d b ab t ∈ s.orc src := by
+        have := hreq.1
+        rw [hr] at this
+        rcases this with h | h
+        · cases h
+        · exact h
+      have hs1 : s1.fs = s.fs := by have := request_fs s src; rw [hr] at this; exact this
+      refine ⟨a, d, b, ab, t, hmem, C07_index_rerun_content root f v src s s1 err a d b t ab hr ?_ s' hacc⟩
+      intro htru hnu
+      rw [hs1] at hnu ⊢
+      exact h5 src a d b ab t hmem htru hnu
+    · -- stop
+      rename_i s' hstop
+      obtain ⟨ho, hf⟩ := attempt_nonaccept root f v src s err s' (Or.inr hstop)
+      have horc : ∀ q x, x ∈ s'.orc q → x ∈ s.orc q := fun q x hx => hreq.2 q x (by rw [← ho]; exact hx)
+      have hfr := attempt_frame root f v src s err
+      rw [hstop] at hfr
+      exact ⟨hfr.wf hwf, S5_step root s s' hwf h5 src horc hf, horc⟩
+    · -- again
+      rename_i s' e' hag
+      obtain ⟨ho, hf⟩ := attempt_nonaccept root f v src s err s' (Or.inl ⟨e', hag⟩)
+      have horc : ∀ q x, x ∈ s'.orc q → x ∈ s.orc q := fun q x hx => hreq.2 q x (by rw [← ho]; exact hx)
+      have hfr := attempt_frame root f v src s err
+      rw [hag] at hfr
+      have hwf' : s'.fs.WF := hfr.wf hwf
+      have h5' := S5_step root s s' hwf h5 src horc hf
+      have ih := tryLoop_content root f v src n s' e' hwf' h5'
+      generalize tryLoop root f v src n s' e' = r at ih ⊢
+      obtain ⟨res, s'', e''⟩ := r
+      cases res with
+      | accepted =>
+        obtain ⟨a, d, b, ab, t, hm, hc⟩ := ih
+        exact ⟨a, d, b, ab, t, horc _ _ hm, hc⟩
+      | exhausted =>
+        obtain ⟨w, h5'', ho''⟩ := ih
+        exact ⟨w, h5'', fun q x hx => horc q x (ho'' q x hx)⟩
+
+/-- **C07 (index stage, a whole index file).** Whatever a dead run left in skel (S5 being the only assumption), if the transfer of
+    an index file is accepted - after any number of failed tries, on whichever of its names and compression variants - every name of
+    the accepted variant shows exactly the content of an answer the server gave for the accepted URL in this run. -/
+theorem C07_index_file_content (root : Path) (f : DFile) :
+    ∀ (vs : List Variant) (s : DState) (err : Bool), s.fs.WF → S5 root s →
+      match tryVariants root f vs s err with
+      | (.accepted, s', _) => ∃ v ∈ vs, ∃ src ∈ v.allPaths, ∃ a d b ab t, Resp.ok a d b ab t ∈ s.orc src ∧
+          ∀ p ∈ v.allPaths, contentAt s'.fs (root ++ p) = some (b, t)
+      | (.exhausted, s', _) => s'.fs.WF ∧ S5 root s' ∧ ∀ q x, x ∈ s'.orc q → x ∈ s.orc q := by
+  -- the aliases of one variant
+  have aliases : ∀ (v : Variant) (srcs : List Path) (s : DState) (err : Bool), s.fs.WF → S5 root s →
+      match tryAliases root f v srcs s err with
+      | (.accepted, s', _) => ∃ src ∈ srcs, ∃ a d b ab t, Resp.ok a d b ab t ∈ s.orc src ∧
+          ∀ p ∈ v.allPaths, contentAt s'.fs (root ++ p) = some (b, t)
+      | (.exhausted, s', _) => s'.fs.WF ∧ S5 root s' ∧ ∀ q x, x ∈ s'.orc q → x ∈ s.orc q := by
+    intro v srcs
+    induction srcs with
+    | nil => intro s err hwf h5; exact ⟨hwf, h5, fun _ _ hx => hx⟩
+    | cons src rest ih =>
+      intro s err hwf h5
+      unfold tryAliases
+      have hl := tryLoop_content root f v src 10 s err hwf h5
+      generalize tryLoop root f v src 10 s err = r at hl ⊢
+      obtain ⟨res, s1, e1⟩ := r
+      cases res with
+      | accepted =>
+        obtain ⟨a, d, b, ab, t, hm, hc⟩ := hl
+        exact ⟨src, List.mem_cons_self, a, d, b, ab, t, hm, hc⟩
+      | exhausted =>
+        obtain ⟨w, h5', ho⟩ := hl
+        have ih' := ih s1 e1 w h5'
+        simp only
+        generalize tryAliases root f v rest s1 e1 = r2 at ih' ⊢
+        obtain ⟨res2, s2, e2⟩ := r2
+        cases res2 with
+        | accepted =>
+          obtain ⟨src', hs', a, d, b, ab, t, hm, hc⟩ := ih'
+          exact ⟨src', List.mem_cons_of_mem _ hs', a, d, b, ab, t, ho _ _ hm, hc⟩
+        | exhausted =>
+          obtain ⟨w2, h52, ho2⟩ := ih'
+          exact ⟨w2, h52, fun q x hx => ho q x (ho2 q x hx)⟩
+  intro vs
+  induction vs with
+  | nil => intro s err hwf h5; exact ⟨hwf, h5, fun _ _ hx => hx⟩
+  | cons v rest ih =>
+    intro s err hwf h5
+    unfold tryVariants
+    have ha := aliases v v.allPaths s err hwf h5
+    generalize tryAliases root f v v.allPaths s err = r at ha ⊢
+    obtain ⟨res, s1, e1⟩ := r
+    cases res with
+    | accepted =>
+      obtain ⟨src, hs, a, d, b, ab, t, hm, hc⟩ := ha
+      exact ⟨v, List.mem_cons_self, src, hs, a, d, b, ab, t, hm, hc⟩
+    | exhausted =>
+      obtain ⟨w, h5', ho⟩ := ha
+      have ih' := ih s1 e1 w h5'
+      simp only
+      generalize tryVariants root f rest s1 e1 = r2 at ih' ⊢
+      obtain ⟨res2, s2, e2⟩ := r2
+      cases res2 with
+      | accepted =>
+        obtain ⟨v', hv', src, hs, a, d, b, ab, t, hm, hc⟩ := ih'
+        exact ⟨v', List.mem_cons_of_mem _ hv', src, hs, a, d, b, ab, t, ho _ _ hm, hc⟩
+      | exhausted =>
+        obtain ⟨w2, h52, ho2⟩ := ih'
+        exact ⟨w2, h52, fun q x hx => ho q x (ho2 q x hx)⟩
+
+/-! non-vacuity: the crash state the tenth-round seed agent-C07-10 needs - the by-hash name complete and dated, the canonical name
+    still on the previous content - satisfies `WF` and `S5` for a server that announces exactly that file, and the model's transfer
+    ends with both names on the served content (evaluated by the kernel) -/
+namespace IndexExample
+def bh : Path := ["d", "by-hash", "SHA256", "h"]
+def canon : Path := ["d", "Packages.xz"]
+def fs0 : FS := (FS.empty.addFile bh { size := 5, mtime := some 7, tag := 3 }).addFile canon { size := 4, mtime := some 1, tag := 2 }
+def st : DState :=
+  ⟨fs0, default, fun q => if q = bh then [.ok (some 5) (some 7) 5 false 3] else [], []⟩
+def f : DFile := DFile.fromHashedPath canon 5 .sha256 "h" true
+
+example : (tryVariants [] f f.iterVariants st false).1 = .accepted ∧
+    contentAt (tryVariants [] f f.iterVariants st false).2.1.fs canon = some (5, 3) ∧
+    contentAt (tryVariants [] f f.iterVariants st false).2.1.fs bh = some (5, 3) ∧
+    contentAt st.fs canon = some (4, 2) := by decide +kernel
+
+example : st.fs.WF := by
+  intro p i h
+  simp only [st, fs0, FS.addFile, FS.empty] at h ⊢
+  split at h
+  · cases h; decide
+  · split at h
+    · cases h; decide
+    · cases h
+
+example : S5 [] st := by
+  intro src a d b ab t hm _ _
+  simp only [st] at hm
+  split at hm
+  · rename_i hq
+    simp only [List.mem_singleton] at hm
+    cases hm
+    subst hq
+    decide
+  · cases hm
+end IndexExample
 
 /-! ## the whole run (L2): every crash point, then a good run -/
 namespace Mirror
